@@ -641,7 +641,7 @@ func TestVerifHubBlock(t *testing.T) {
 		}()
 		sendersDone := make(chan struct{})
 		go func() { wg.Wait(); close(sendersDone) }()
-		wd := time.After(4 * time.Second)
+		wd := time.After(12 * time.Second)
 		rec["hub_returns"], rec["senders_return"] = true, true
 		select {
 		case <-hubDone:
@@ -650,7 +650,7 @@ func TestVerifHubBlock(t *testing.T) {
 		}
 		select {
 		case <-sendersDone:
-		case <-time.After(2 * time.Second):
+		case <-time.After(6 * time.Second):
 			rec["senders_return"] = false
 		}
 		queued, closed := 0, 0
